@@ -130,7 +130,7 @@ deriving Repr
 structure WorkerD where
   path : List Nat := []
   occAt : List Nat := []
-  occWait : Nat := 0          -- hundredths of a second
+  occWait : Float := 0.0      -- seconds, accumulated exactly like Python's float
   pc : Pc := .loop
   preResults : List Result := []
   preName : String := ""
